@@ -55,18 +55,24 @@ def heap? : Sexp → Option Heap
 
 def posOf (names : List Str) (n : Str) : Nat := (names.findIdx? (· == n)).getD names.length
 
-partial def descToSexp (names : List Str) : Desc → Sexp
-  | .lit n => .list [.atom "l", ofInt n]
-  | .str s => .list (.atom "s" :: s.map fun c => ofNat c.toNat)
-  | .ref n => .list [.atom "r", ofNat (posOf names n)]
-  | .own c fs => .list [.atom "o", ofNat c, .list (fs.map (descToSexp names))]
-  | .pending => .atom "pending"
-  | .anon => .atom "anon"
+/-- tokens → nested S-expression; returns the rest of the token stream -/
+partial def tokToSexp (names : List Str) : List C02.Tok → Sexp × List C02.Tok
+  | [] => (.atom "anon", [])
+  | .lit n :: r => (.list [.atom "l", ofInt n], r)
+  | .str s :: r => (.list (.atom "s" :: s.map fun c => ofNat c.toNat), r)
+  | .ref n :: r => (.list [.atom "r", ofNat (posOf names n)], r)
+  | .pending :: r => (.atom "pending", r)
+  | .anon :: r => (.atom "anon", r)
+  | .opn c k :: r =>
+    let (fs, rest) := (List.range k).foldl (fun (acc : List Sexp × List C02.Tok) _ =>
+      let (e, r') := tokToSexp names acc.2; (acc.1 ++ [e], r')) ([], r)
+    (.list [.atom "o", ofNat c, .list fs], rest)
 
+/-- a top-level view entry is printed as `(cls (fields…))` -/
 def viewToSexp (names : List Str) (v : View) : Sexp :=
-  .list (v.map fun e => match e.2 with
-    | none => .atom "missing"
-    | some (c, fs) => .list [ofNat c, .list (fs.map (descToSexp names))])
+  .list (v.map fun e => match (tokToSexp names e.2).1 with
+    | .list [.atom "o", c, fs] => .list [c, fs]
+    | _ => .atom "missing")
 
 def tableSexp (reg : Reg) : Sexp := .list (reg.map fun e => .list [strToCodes e.2, ofNat e.1])
 
@@ -76,20 +82,24 @@ def sErrAtom : SErr → String
 def lErrAtom : LErr → String
   | .circular => "circular" | .unrecognized => "unrecognized" | .malformed => "malformed" | .fuel => "fuel"
 
-partial def sexpToDesc? (names : List Str) : Sexp → Option Desc
-  | .atom "pending" => some .pending
-  | .atom "anon" => some .anon
-  | .list [.atom "l", n] => n.toInt?.map .lit
-  | .list (.atom "s" :: cs) => (cs.mapM toNat?).map fun ns => .str (ns.map Char.ofNat)
-  | .list [.atom "r", k] => do let i ← k.toNat?; some (.ref (names.getD i []))
-  | .list [.atom "o", c, .list fs] => do some (.own (← c.toNat?) (← fs.mapM (sexpToDesc? names)))
+partial def sexpToToks? (names : List Str) : Sexp → Option (List C02.Tok)
+  | .atom "pending" => some [.pending]
+  | .atom "anon" => some [.anon]
+  | .list [.atom "l", n] => n.toInt?.map fun i => [.lit i]
+  | .list (.atom "s" :: cs) => (cs.mapM toNat?).map fun ns => [.str (ns.map Char.ofNat)]
+  | .list [.atom "r", k] => do let i ← k.toNat?; some [.ref (names.getD i [])]
+  | .list [.atom "o", c, .list fs] => do
+      let parts ← fs.mapM (sexpToToks? names)
+      some (.opn (← c.toNat?) fs.length :: parts.flatten)
   | _ => none
 
 def sexpToView? (names : List Str) : Sexp → Option View
   | .list es => (List.zip names es).mapM fun (n, e) =>
       match e with
-      | .atom "missing" => some (n, none)
-      | .list [c, .list fs] => do some (n, some (← c.toNat?, ← fs.mapM (sexpToDesc? names)))
+      | .atom "missing" => some (n, [.anon])
+      | .list [c, .list fs] => do
+          let parts ← fs.mapM (sexpToToks? names)
+          some (n, .opn (← c.toNat?) fs.length :: parts.flatten)
       | _ => none
   | _ => none
 
@@ -109,7 +119,7 @@ def strictSpecFw (h : Heap) (out : Sexp) : Bool :=
     | some reg, some d =>
       let names := reg.map (·.2)
       match sexpToView? names view with
-      | some v => d == reg.length && viewBeq (viewBefore h reg) v && names.eraseDups.length == names.length
+      | some v => d == reg.length && decide (v = viewBefore h reg) && names.eraseDups.length == names.length
       | none => false
     | _, _ => false
   | _ => false
